@@ -321,8 +321,12 @@ ResultCancelled(r) ==
 \* comparison with the previous run of the same group: the verdict must not
 \* depend on presentation (C02), schedule (C10); identical runs must be
 \* identical in every observable (C06)
-GroupRule(r) ==
-  LET g == cfg.group
+\* "unsat_nograph": an Unsolvable verdict recorded without its conflict graph
+KindOf(r) == IF r.kind = "unsat_nograph" THEN "unsat" ELSE r.kind
+
+GroupRule(r0) ==
+  LET r == [r0 EXCEPT !.kind = KindOf(r0)]
+      g == cfg.group
       linked == g # 0 /\ grp.id = g /\ ctx.k = 1
       comparable == r.kind \in {"sat", "unsat"} /\ grp.kind \in {"sat", "unsat"}
   IN /\ (IF linked /\ comparable /\ cfg.same \in {"verdict", "exact"}
@@ -344,6 +348,9 @@ Result ==
   /\ LET r == Rec[l] IN
      CASE r.kind = "sat" -> ResultSat(r)
        [] r.kind = "unsat" -> ResultUnsat(r)
+       [] r.kind = "unsat_nograph" ->
+            /\ Chk("C02", ~Satisfiable(u, p), "C02_UnsatButSatisfiable", 0)
+            /\ Cover(<<"unsat", "oracle">>)
        [] r.kind = "cancelled" -> ResultCancelled(r)
        [] r.kind = "panic" -> Fail("C04_Panic", <<r.phase, r.site, r.msg>>)
        [] r.kind = "deadlock" -> Fail("C10_Deadlock", <<r.phase>>)
